@@ -59,6 +59,7 @@ from armi import context, getApp, meta, runLog, settings
 from armi.bookkeeping.db.jaggedArray import JaggedArray
 from armi.bookkeeping.db.layout import (
     DB_VERSION,
+    LOC_COORD,
     Layout,
     replaceNonesWithNonsense,
     replaceNonsenseWithNones,
@@ -832,7 +833,7 @@ class Database:
 
     def _compose(self, comps, cs, parent=None):
         """Given a flat collection of all of the ArmiObjects in the model, reconstitute the hierarchy."""
-        comp, _, numChildren, location = next(comps)
+        comp, _, numChildren, location, locationType = next(comps)
 
         # attach the parent early, if provided; some cases need the parent attached for the rest of
         # _compose to work properly.
@@ -852,12 +853,14 @@ class Database:
 
         # set the spatialLocators on each component
         if location is not None:
-            if parent is not None and parent.spatialGrid is not None:
-                comp.spatialLocator = parent.spatialGrid[location]
-            else:
+            parentGrid = parent.spatialGrid if parent is not None else None
+            if locationType == LOC_COORD or parentGrid is None:
+                # free coordinates are not indices into the parent's grid
                 comp.spatialLocator = grids.CoordinateLocation(
-                    location[0], location[1], location[2], None
+                    location[0], location[1], location[2], parentGrid
                 )
+            else:
+                comp.spatialLocator = parentGrid[location]
 
         # Need to keep a collection of Component instances for linked dimension resolution, before
         # they can be add()ed to their parents. Not just filtering out of `children`, since
